@@ -191,7 +191,7 @@ def contracts(reg):
     reg.add(Contract(SV + "StateVectorPropagator._propagate_short_exp#loop-structure", setup=setup_sv_loop,
                      requires=["N >= 0", "Nt >= 1", "self.Nref >= 1", "L >= 1"],
                      ensures=[("expansion-restarted-from-the-final-state", "forall(a, range(0, N), local_psi1[a] == local_psi2[a])")],
-                     loops={0: dict(inv=[("sub-step-starts-from-the-current-state", SAME)[1]], modifies=["pr.data"]),
+                     loops={0: dict(inv=["indx == _i", ("sub-step-starts-from-the-current-state", SAME)[1]], modifies=["pr.data"]),
                             1: dict(inv=[SAME]),
                             2: dict(inv=[], modifies=["psi1", "psi2"])},
                      expose_locals=["psi1", "psi2"]))
